@@ -339,7 +339,9 @@ def run_fortran(case, code):
         return {"gen_error": gen["error"], "message": gen["message"]}
     drv = rt.make_driver(MODULE, gen, case["init"], case["nsteps"], {"y": NY})
     res = rt.build_and_run([(MODULE + ".f90", gen["text"]), ("drv.f90", drv)])
+    ne_in_code = any("!=" in ln for ln in gen["text"].splitlines() if not ln.lstrip().startswith("! "))
     out = {"symbols": [list(s) for s in gen["symbols"]], "phases": gen["phases"], "time_ids": gen["time_ids"],
+           "ne_in_code": ne_in_code,
            "compile_rc": res["compile_rc"], "compile_stderr": res["compile_stderr"]}
     if res["compile_rc"] != 0:
         return out
@@ -373,7 +375,7 @@ def oracle(case, res):
     if "gen_error" in f:
         return {"kind": "generation_error", "exception": f["gen_error"], "message": f["message"]}
     if f["compile_rc"] != 0:
-        return {"kind": "compile_error", "stderr": f["compile_stderr"][:1200]}
+        return {"kind": "compile_error", "stderr": f["compile_stderr"], "ne_in_code": f.get("ne_in_code", False)}
     names = [s[0] for s in f["symbols"]]
     for k, (fs, is_) in enumerate(zip(f["steps"], i["steps"])):
         for n in names:
@@ -396,16 +398,37 @@ def oracle(case, res):
     return None
 
 
+def uses_default(case):
+    """a call of <func>sq that leaves its defaulted argument y out"""
+    found = []
+
+    def walk(e):
+        if isinstance(e, list):
+            if len(e) == 4 and e[0] == "call" and e[1] == "<func>sq" and len(e[2]) == 1 and not e[3]:
+                found.append(e)
+            if len(e) == 5 and e[0] == "call" and e[2] == "<func>sq" and len(e[3]) == 1 and not e[4]:
+                found.append(e)
+            for c in e:
+                walk(c)
+    for ph in case["phases"]:
+        walk(ph["prog"])
+    return bool(found)
+
+
 def classify(case, o):
     """narrow classes used for known findings"""
     feats = features(case)
     if o["kind"] == "generation_error" and o["exception"] == "ValueError" and "NoneType" in o["message"] \
             and "pow" in feats:
         return "power_kind_none"
-    if o["kind"] == "compile_error" and "minmax_int" in feats and "intrinsic" in o["stderr"] \
-            and ("'min'" in o["stderr"] or "'max'" in o["stderr"]) and o["stderr"].count("Error") == 1:
+    if o["kind"] == "generation_error" and o["exception"] == "TypeError" and "sequence item" in o["message"] \
+            and uses_default(case):
+        return "default_argument_unsupported"
+    if o["kind"] == "compile_error" and "minmax_int" in feats and o["stderr"].count("\nError:") == 1 \
+            and "intrinsic" in o["stderr"] and "must be INTEGER" in o["stderr"] \
+            and ("min" in o["stderr"] or "max" in o["stderr"]):
         return "minmax_integer_argument"
-    if o["kind"] == "compile_error" and "ne" in feats and "!=" in o["stderr"]:
+    if o["kind"] == "compile_error" and "ne" in feats and o.get("ne_in_code"):
         return "ne_not_fortran"
     if o["kind"] == "state_differs" and "cond_expr" in feats:
         return "conditional_expression_else"
@@ -547,7 +570,9 @@ class PGen:
         if c < 0.90 and scope["arr"]:
             return ["call", "<builtin>len", [["var", r.choice(scope["arr"])]], []]
         if c < 0.94 and "pow" in self.allow:
-            return ["pow", self.leaf(scope), ["int", r.choice([2, 3])]]
+            # variable base only: an integer exponent is printed 2d0 and gfortran rejects a negative
+            # CONSTANT base raised to a real power at compile time
+            return ["pow", ["var", r.choice(PS)], ["int", r.choice([2, 3])]]
         return self.leaf(scope)
 
     def small(self, scope):
@@ -706,7 +731,7 @@ class PGen:
                 prog.append(["endif"] if kind == "if" else ["endelse"])
                 depth -= 1
                 can_else = kind == "if"
-            elif c < 0.36 and can_else and depth < 2:
+            elif can_else and depth < 2 and c < 0.55:
                 prog.append(["else"])
                 stack.append("else")
                 depth += 1
@@ -795,7 +820,80 @@ def _balanced(prog):
     return not stack
 
 
+def well_formed(case):
+    """every persistent name that is read is assigned somewhere (else the generator does not declare it),
+    locals are assigned at top level before they are read, switch targets exist"""
+    written, read = set(), set()
+    names = {ph["name"] for ph in case["phases"]}
+    for ph in case["phases"]:
+        local_def, depth = set(), 0
+        for c in ph["prog"]:
+            if c[0] in ("if", "else"):
+                if c[0] == "if":
+                    used = lang_vars(c[1])
+                    read |= used
+                    if any(not persistent(v) and v not in local_def for v in used):
+                        return False
+                depth += 1
+            elif c[0] in ("endif", "endelse"):
+                depth -= 1
+            else:
+                k = c[1]
+                lvs = set(l[0] for l in k[4]) if k[0] == "assign" else set()
+                used = set()
+                if k[0] == "assign":
+                    used |= lang_vars(k[3]) | (lang_vars(k[2]) if k[2] is not None else set())
+                    for _, lo, hi in k[4]:
+                        used |= lang_vars(lo) | lang_vars(hi)
+                    if k[2] is not None:
+                        used.add(k[1])
+                elif k[0] == "call":
+                    for e in k[3]:
+                        used |= lang_vars(e)
+                    for _, e in k[4]:
+                        used |= lang_vars(e)
+                elif k[0] == "yield":
+                    used |= lang_vars(k[3]) | lang_vars(k[4])
+                elif k[0] == "switch" and k[1] not in names:
+                    return False
+                used -= lvs
+                read |= used
+                if any(not persistent(v) and v not in local_def for v in used):
+                    return False
+                ws = [k[1]] if k[0] == "assign" and k[2] is None else (list(k[1]) if k[0] == "call" else [])
+                written |= set(ws)
+                if depth == 0:
+                    local_def |= set(ws)
+    return all(v in written for v in read if persistent(v) and v not in ("<t>", "<dt>")) and \
+        case["initial"] in names and all(ph["next"] in names for ph in case["phases"])
+
+
+def lang_vars(e):
+    if not isinstance(e, list):
+        return set()
+    if len(e) == 2 and e[0] == "var":
+        return {e[1]}
+    if e and e[0] == "call" and len(e) == 4 and isinstance(e[1], str):
+        out = set()
+        for c in e[2]:
+            out |= lang_vars(c)
+        for _, c in e[3]:
+            out |= lang_vars(c)
+        return out
+    out = set()
+    for c in e:
+        if isinstance(c, list):
+            out |= lang_vars(c)
+    return out
+
+
 def neighbours(case):
+    for c in _neighbours(case):
+        if well_formed(c):
+            yield c
+
+
+def _neighbours(case):
     if case["nsteps"] > 1:
         yield dict(case, nsteps=case["nsteps"] - 1)
     for pi, ph in enumerate(case["phases"]):
@@ -845,6 +943,10 @@ def shrink(case, cls, budget=60):
 
 # ------------------------------------------------------------------ the check
 
+def _short(o):
+    return {k: (v[:1500] if isinstance(v, str) else v) for k, v in o.items()}
+
+
 def run_all(cases):
     with concurrent.futures.ProcessPoolExecutor(max_workers=common.NPROC) as ex:
         return list(ex.map(run_case, cases, chunksize=1))
@@ -865,8 +967,8 @@ def main(tier):
     results = run_all([strip(c) for c in cases])
 
     known = {k.get("class"): k for k in common.known_findings(PID)}
-    failing, skipped, compared_steps = {}, 0, 0
-    for case, res in zip(cases, results):
+    failing, skipped, compared_steps, known_idx = {}, 0, 0, set()
+    for ci, (case, res) in enumerate(zip(cases, results)):
         o = oracle(case, res)
         if o is None:
             compared_steps += len(res["interp"]["steps"])
@@ -875,6 +977,8 @@ def main(tier):
             skipped += 1
             continue
         cls = classify(case, o)
+        if cls in known:
+            known_idx.add(ci)       # a cause of failure the model does not know: not compared with it
         if cls not in failing or size(case) < size(failing[cls][0]):
             failing[cls] = (case, res, o)
     for cls, (case, res, o) in sorted(failing.items()):
@@ -886,7 +990,7 @@ def main(tier):
         o2 = oracle(small, res2) or o
         rep.violation({"what": "the module emitted by the Fortran code generator does not compile, or the compiled "
                                "stepper and the interpreter disagree after some call of run",
-                       "class": cls, "case": small, "features": features(small), "oracle": o2,
+                       "class": cls, "case": small, "features": features(small), "oracle": _short(o2),
                        "fortran": {k: v for k, v in res2.get("fortran", {}).items() if k != "symbols"},
                        "interpreter": res2.get("interp"), "found_in": case.get("file", "random stream"),
                        "replay": "./check C03 --replay <this file>"})
@@ -894,7 +998,7 @@ def main(tier):
     # correspondence with the Coq model
     terms, term_idx = [], []
     for ci, (case, res) in enumerate(zip(cases, results)):
-        t = case_term(case, res)
+        t = None if ci in known_idx else case_term(case, res)
         if t is not None:
             terms.append(t)
             term_idx.append(ci)
